@@ -9,6 +9,7 @@
   reference translation `Body.tr`, the denotation `den`.
 -/
 import PrologVerif.Proofs.DCGItems
+import PrologVerif.Proofs.DCGSemCall
 namespace PrologVerif.C17
 open PrologVerif PrologVerif.DCG PrologVerif.Grammar
 
@@ -128,11 +129,6 @@ theorem C17_pushback (nt pb b : Term) (n : Nat) :
     | error e => rfl
     | ok r => cases terminalsOf pb <;> rfl
 
-/-- the instantiation of the two hidden arguments S0 = `x`, S = `y` of a clause by actual
-    arguments `l`, `r` -/
-def inst (x : Nat) (l : Term) (y : Nat) (r : Term) : Nat → Term :=
-  fun w => if w = x then l else if w = y then r else .var w
-
 /-- **C17_expand_vs_phrase.** For a rule without push-back, expand_term/2 produces
     `Head(S0, S) :- G` where `G` is what `dcgBody` — the function phrase/3 applies at call time —
     makes of the body with the two new variables; and for ANY actual arguments `l`, `r`, the goal
@@ -201,5 +197,88 @@ theorem C17_expand_vs_phrase (h b c : Term) (n n' : Nat)
 theorem C17_conjunction_flat (t : Term) (fuel : Nat) (h : t.size ≤ fuel) :
     seqItems fuel t = conjuncts t :=
   seqItems_eq_conjuncts fuel t h
+
+/-- a `!` that is an element of a grammar-body sequence (however the sequence is nested) is one
+    of the goals the compiler sees inline in the translated body — it is compiled as a clause-level
+    cut, not hidden inside a `','/2` goal (the consequence of the D16 repair for DCG bodies) -/
+theorem C17_cut_clause_level (b : Body) (s0 s : Term) (n fuel : Nat) (h : Body.cut ∈ b.elems)
+    (hf : (b.tr s0 s n).1.size ≤ fuel) : Term.atom "!" ∈ seqItems fuel (b.tr s0 s n).1 := by
+  rw [seqItems_eq_conjuncts fuel _ hf]
+  clear hf
+  induction b generalizing s0 s n with
+  | seq a b iha ihb =>
+    simp only [Body.elems, List.mem_append] at h
+    simp only [Body.tr, Term.a2, conjuncts, List.mem_append]
+    rcases h with h | h
+    · exact .inl (iha _ _ _ h)
+    · exact .inr (ihb _ _ _ h)
+  | cut => simp [Body.tr, Term.a2, conjuncts]
+  | _ => simp [Body.elems] at h
+
+example : Body.cut ∈ (Body.seq (.seq (.terminals [.atom "x"]) .cut) (.terminals [.atom "y"])).elems := by
+  decide
+
+/-! ### meaning: the translated clauses behave as the grammar says -/
+
+/-- **full statement (open).**  For every grammar, body `q`, input `l` and remainder `r` (arbitrary
+    terms — recognition, parsing with a remainder, generation), whenever the reference SLD
+    evaluation (ISO cut semantics) of the TRANSLATED body in the TRANSLATED grammar and the
+    denotation both finish within the fuel, they have the same answers — bindings of all variables
+    of the query, i.e. recognition, argument binding and remainder — in the same order.
+    (Evaluated on every case of the stream c17.lang by the driver: verdict SPEC-INCONSISTENT.) -/
+def C17_translation_sound_complete_statement : Prop :=
+  ∀ (cfg : Cfg) (gr : Grammar) (q l r : Term) (b : Body) (n : Nat),
+    cfg.engine = false → Body.ofTerm q = .ok b → (∀ ru ∈ gr, clash ru.name ru.args.length = false) →
+    let k := max (boundT q) (max (boundT l) (boundT r))
+    let st0 : St := { σ := [], next := k }
+    let g := b.tr l r k
+    let tmpl := Term.mk "t" [q, l, r]
+    ∀ A D, solve cfg.uf (programOf gr) n g.1 { st0 with next := g.2 } = .ok A →
+      Grammar.phrase cfg gr n b st0 l r = .ok D →
+      (∀ o ∈ projected cfg.uf tmpl A.answers ++ projected cfg.uf tmpl D, o.isSome) →
+      projected cfg.uf tmpl A.answers = projected cfg.uf tmpl D
+
+/-- **C17_translation_sound_complete (fragment).**  For simple grammars (recursion allowed) and
+    every ground input list, with the SAME fuel `n` (nesting depth of non-terminal calls): the
+    reference SLD evaluation of the translated body `Body(l, S)` in the translated grammar and the
+    denotation ⟦b⟧ either both give no result (out of fuel / undefined non-terminal), or both
+    succeed, neither leaves a cut behind, and the remainders `S` of the SLD answers are exactly the
+    remainders of the denotation, in the same order — in particular the translated grammar
+    recognises exactly the lists the denotation derives.  The denotation binds nothing. -/
+theorem C17_translation_sound_complete_partial (cfg : Cfg) (gr : Grammar) (b : Body) (l : List Term)
+    (h : SimpleSetting cfg gr b l) (n : Nat) :
+    let st0 : St := { σ := [], next := 1 + b.nhid }
+    match solve cfg.uf (programOf gr) n (b.tr (Term.list l) (.var 0) 1).1 st0,
+          den cfg gr n true b st0 (Term.list l) with
+    | .ok A, .ok D =>
+      A.cut = false ∧ D.cut = false ∧
+      A.answers.map (fun st => walk st.σ (.var 0)) = D.answers.map (·.2) ∧
+      ∀ a ∈ D.answers, a.1 = st0
+    | .error _, .error _ => True
+    | _, _ => False := by
+  intro st0
+  have P : Pre st0 (Term.list l) l 0 1 (1 + b.nhid) :=
+    ⟨walk_nonvar _ _ (isVar_list l), h.input, by simp [st0], by simp [st0], by simp [st0]; omega,
+      Nat.le_refl _, by omega, by simp [st0]⟩
+  have hsim := level_sim cfg h.iso h.uf gr h.rules n b h.body.1 h.body.2 true st0 st0 (Term.list l) l 0 1 P
+  cases hx : solve cfg.uf (programOf gr) n (b.tr (Term.list l) (.var 0) 1).1 st0 with
+  | error e =>
+    cases hy : den cfg gr n true b st0 (Term.list l) with
+    | error e' => trivial
+    | ok D => simp only [hx, hy, Rel] at hsim
+  | ok A =>
+    cases hy : den cfg gr n true b st0 (Term.list l) with
+    | error e' => simp only [hx, hy, Rel] at hsim
+    | ok D =>
+      simp only [hx, hy, Rel] at hsim
+      obtain ⟨c1, c2, hall⟩ := hsim
+      refine ⟨c1, c2, ?_, ?_⟩
+      · exact hall.map_eq _ _ (fun st' a hr => by
+          obtain ⟨_, r, e2, _, hw, _⟩ := hr
+          rw [hw, e2])
+      · exact hall.forall_right _ (fun st' a hr => hr.1)
+
+example : SimpleSetting { uf := 256, engine := false } [exampleRule] (.nt "a" []) [.atom "x", .atom "x"] :=
+  ⟨rfl, by decide, by decide, by decide, by decide⟩
 
 end PrologVerif.C17
